@@ -1,6 +1,6 @@
 // C17 driver: builds an operation tree of MTBDDs (every op creates handle number = its position) in the
 // process-wide node store, then observes every handle.
-// case:   c17 <u|s> <NV> { K v | C asgn v d | Y a | U f a | B f a b | T f a b c | P f mask a | R r0..r(NV-1) a
+// case:   c17 <u|s> <NV> { K v | C asgn v d | Y a | A a b | U f a | B f a b | T f a b c | P f mask a | R r0..r(NV-1) a
 //                          | E asgn off a | X asgn off a }*
 // output: V <values on all 3^NV assignments, one word per handle> EQ <n*n matrix of operator==, row major>
 //         P <GetPaths per handle: asgn:value,...> W <leaf sets seen by VoidApply1 per handle, as masks over values>
@@ -20,6 +20,7 @@ template <class D> std::string runCase(Toks& t) {
 		if (w == "K") { unsigned v = t.num(); hs.emplace_back(new M(D::dec(v))); }
 		else if (w == "C") { std::string a = t.word(); unsigned v = t.num(), d = t.num(); hs.emplace_back(new M(mkAsgn(a), D::dec(v), D::dec(d))); }
 		else if (w == "Y") { unsigned a = t.num(); hs.emplace_back(new M(*hs.at(a))); }
+		else if (w == "A") { unsigned a = t.num(), b = t.num(); std::unique_ptr<M> x(new M(*hs.at(a))); *x = *hs.at(b); hs.push_back(std::move(x)); }     // copy of a, then copy-assigned from b
 		else if (w == "U") { unsigned f = t.num(), a = t.num(); if (!f1s.count(f)) f1s[f].reset(new F1<D>(f)); F1<D>& fn = *f1s[f]; hs.emplace_back(new M(fn(*hs.at(a)))); }
 		else if (w == "B") { unsigned f = t.num(), a = t.num(), b = t.num(); if (!f2s.count(f)) f2s[f].reset(new F2<D>(f)); F2<D>& fn = *f2s[f]; hs.emplace_back(new M(fn(*hs.at(a), *hs.at(b)))); }
 		else if (w == "T") { unsigned f = t.num(), a = t.num(), b = t.num(), c = t.num(); if (!f3s.count(f)) f3s[f].reset(new F3<D>(f)); F3<D>& fn = *f3s[f]; hs.emplace_back(new M(fn(*hs.at(a), *hs.at(b), *hs.at(c)))); }
